@@ -14,3 +14,5 @@ import Crd.Props.C08Bytes
 #print axioms Crd.Props.C08.written_file_parses
 #print axioms Crd.Props.C08.decode_keeps_texts
 #print axioms Crd.Props.C08.write_output_parses
+#print axioms Crd.Props.C08.prepare_keeps_dyns
+#print axioms Crd.Props.C08.written_tracks_balanced
